@@ -50,3 +50,7 @@
 (declare-const scount (_ BitVec 64))
 (declare-fun sstart ((_ BitVec 64)) (_ BitVec 64))
 (declare-fun slen ((_ BitVec 64)) (_ BitVec 64))
+
+; rtypT(tid), rtypD(tid): the two words of reflect.TypeOf(x) for a value x whose dynamic type has id tid
+(declare-fun rtypT ((_ BitVec 64)) (_ BitVec 64))
+(declare-fun rtypD ((_ BitVec 64)) (_ BitVec 64))
